@@ -96,6 +96,8 @@ class Bus:
         self.logger = uros.Logger(c) if top["logger"] else None
         self.rows_seen = 0
         self.ref_rows = []
+        self.ref_logdt = 1.0 / 200  # reference copy of the logger period (follows the parameter topic)
+        self.ref_next_row = 0.0  # reference model: time of the next row
         if top["periods"]:
             for topic, per in zip(("a", "b"), top["periods"]):
                 simpy.Process(c, self._periodic(topic, per))
@@ -156,6 +158,10 @@ class Bus:
                     self.fails.append(("logger_row_holds_latest_message_per_topic", dict(row=self.rows_seen, topic=k, logged=got[k], latest=w, time=want["time"])))
             if got["time"] != want["time"]:
                 self.fails.append(("logger_row_time_is_current_time", dict(row=self.rows_seen, logged=got["time"], now=want["time"])))
+            # one row per logging period: the row is due exactly one (then current) period after the previous one
+            if abs(want["time"] - self.ref_next_row) > 1e-9:
+                self.fails.append(("logger_one_row_per_period", dict(row=self.rows_seen, time=want["time"], due=self.ref_next_row, period=self.ref_logdt)))
+            self.ref_next_row = want["time"] + self.ref_logdt
             self.rows_seen += 1
 
     # -- events -------------------------------------------------------------------------------------------
@@ -191,9 +197,12 @@ class Bus:
                 return False
             if c._params is None:
                 c.init_params()
-            c.set_param("logger/dt", 2.0)
-            if self.logger.dt.get() != 2.0:
-                self.fails.append(("logger_follows_parameter_topic", dict(dt=self.logger.dt.get())))
+            # toggles 2 <-> 1 so that the period also changes while the logger process is running
+            val = 1.0 if self.ref_logdt == 2.0 else 2.0
+            c.set_param("logger/dt", val)
+            self.ref_logdt = val
+            if self.logger.dt.get() != val:
+                self.fails.append(("logger_follows_parameter_topic", dict(dt=self.logger.dt.get(), set=val)))
         elif ev in ("run1", "run2"):
             self.until += 1.0 if ev == "run1" else 2.0
             c.run(until=self.until)
@@ -229,9 +238,11 @@ class Bus:
         # one row per logging period: consecutive rows are exactly one (current) period apart, first row at 0
         if ts and ts[0] != 0.0:
             self.fails.append(("logger_one_row_per_period", dict(times=ts, note="first row not at t=0")))
-        gaps = [round(b - a, 9) for a, b in zip(ts, ts[1:])]
-        if any(g not in (1.0 / 200, 2.0) for g in gaps) or len(set(ts)) != len(ts):
-            self.fails.append(("logger_one_row_per_period", dict(times=ts[:12], gaps=gaps[:12])))
+        if len(set(ts)) != len(ts):
+            self.fails.append(("logger_one_row_per_period", dict(times=ts[:12], note="duplicate rows")))
+        # no period skipped: the next row is not overdue at the end of the slice
+        if self.ref_next_row < self.until - 1e-9:
+            self.fails.append(("logger_one_row_per_period", dict(times=ts[-6:], due=self.ref_next_row, now=self.until, note="row overdue")))
 
 
 def run_word(top, word, chooser=None):
@@ -328,6 +339,7 @@ DTS = [-1e-3, 0.0, 1e-3, 4e-3, 5e-3, 6e-3, 20e-3]
 
 
 def run_est(initialize, dt_min, word):
+    dt_min_accel, dt_min_mag = dt_min
     c = uros.Core()
     pub_imu = uros.Publisher(c, "imu", msgs.Imu)
     pub_mag = uros.Publisher(c, "mag", msgs.Mag)
@@ -335,8 +347,8 @@ def run_est(initialize, dt_min, word):
     with contextlib.redirect_stdout(io.StringIO()):
         est = AttitudeEstimator(c, "mrp", spy.eqs(), initialize)
         c.init_params()
-        c.set_param("mrp/dt_min_accel", dt_min)
-        c.set_param("mrp/dt_min_mag", dt_min)
+        c.set_param("mrp/dt_min_accel", dt_min_accel)
+        c.set_param("mrp/dt_min_mag", dt_min_mag)
         t = 0.01
         log = []
         for sensor, dt in word:
@@ -394,8 +406,9 @@ def explore_est(case):
                     if cname in ("predict", "accel", "mag") and not inited:
                         res.fail(site="AttitudeEstimator", clause="nothing_before_initialisation", cls="init=%s" % initialize, detail=dict(info, t=t, call=cname), sub="est", case=case)
                     if cname in ("accel", "mag"):
-                        if last[cname] is not None and t - last[cname] < dt_min - 1e-3 - 1e-12:
-                            res.fail(site="AttitudeEstimator", clause="%s_corrections_rate_limited" % cname, cls="dt_min=%g" % dt_min,
+                        lim = dt_min[0] if cname == "accel" else dt_min[1]
+                        if last[cname] is not None and t - last[cname] < lim - 1e-3 - 1e-12:
+                            res.fail(site="AttitudeEstimator", clause="%s_corrections_rate_limited" % cname, cls="dt_min=%g/%g" % tuple(dt_min),
                                      detail=dict(info, t=t, previous=last[cname], gap=t - last[cname]), sub="est", case=case)
                         last[cname] = t
                     if cname == "initialize":
@@ -421,7 +434,7 @@ class _Est:
     chunks = 1
 
     def cases(self, tier, seed):
-        return [dict(sub="est", tier=tier, initialize=i, dt_min=d, first=f) for i in (True, False) for d in (5e-3, 20e-3) for f in range(14)]
+        return [dict(sub="est", tier=tier, initialize=i, dt_min=d, first=f) for i in (True, False) for d in ((5e-3, 5e-3), (20e-3, 20e-3), (5e-3, 20e-3), (20e-3, 5e-3)) for f in range(14)]
 
     def run(self, case):
         return explore_est(case)
